@@ -145,6 +145,23 @@ def cached_length_field(ctx, wb, wlin, llin):
     return True, "field `%s` is private and every constructor (%d) sets it to the length of `%s`" % (F, n, G)
 
 
+def packet_emission_order(ctx, b):
+    """(callee, element type, iterated collection or None) for every nested write of a packet writer, in block order"""
+    a2 = ctx.whole.results[b.id]
+    lps, irr, dom = loops.natural_loops(b)
+    order = []
+    for e in sorted(a2.emits, key=lambda x: x["bi"]):
+        if e["kind"] != "nested":
+            continue
+        src = None
+        for h, info in lps.items():
+            if e["bi"] in info["body"]:
+                nodes = [n for n in a2.join_info if n[0] == h]
+                src = layout.loop_source(a2, nodes[0]) if nodes else "?"
+        order.append((e["fn"], e["type"], src))
+    return order
+
+
 def run(ctx):
     prog, W = ctx.prog, ctx.whole
     report = Report("C04", ctx, "R1 for every WireFormat impl the symbolic byte count of write_to (exact writer-position tracking, loops as "
@@ -219,18 +236,7 @@ def run(ctx):
     # both packet writers: header, then questions, answers, name_servers, [opt], additional
     for wn in ("write_to", "write_c"):
         b = B[wn]
-        a2 = W.results[b.id]
-        lps, irr, dom = loops.natural_loops(b)
-        order = []
-        for e in sorted(a2.emits, key=lambda x: x["bi"]):
-            if e["kind"] != "nested":
-                continue
-            src = None
-            for h, info in lps.items():
-                if e["bi"] in info["body"]:
-                    nodes = [n for n in a2.join_info if n[0] == h]
-                    src = layout.loop_source(a2, nodes[0]) if nodes else "?"
-            order.append((e["fn"], e["type"], src))
+        order = packet_emission_order(ctx, b)
         report.count()
         compact = [(fn, t, s) for fn, t, s in order]
         exp_fn = "write_compressed_to" if wn == "write_c" else "write_to"
